@@ -1,7 +1,7 @@
 SPECIFICATION Spec
 CONSTANTS
   URIs = {"file:///u1.sql", "file:///u2.sql"}
-  MaxLines = 2
+  MaxLines = 1
   MaxVer = 3
   Emit = TRUE
   PairView = TRUE
